@@ -111,6 +111,32 @@ func multiScenarios() []*harness.Scenario {
 			After:  4,
 		},
 		{
+			// a maturity queue that already holds ANOTHER account's entry (from the genesis state) gets a new entry
+			// by an unstake, in a block in which that other account signs nothing - once with the new entry sorting
+			// before, once behind the old one (height 6: S2 joins S1's queue; height 7: S1 joins S2's).
+			// (Added after a seeded change - the new entry inserted through an aliased slice - escaped C03: its
+			// victims had always signed in the block concerned.)
+			Kind: action.SEND.String(), Note: "multi-unstake-joins-another-accounts-maturity-queue",
+			World: func() *harness.World {
+				w := harness.NewWorld("multi-queue", 4, 3)
+				w.Mutate = func(w *harness.World, st *consensus.AppState) {
+					st.Delegation = *delegation.NewDelegationState()
+					st.Delegation.MatureAmounts = append(st.Delegation.MatureAmounts,
+						&delegation.MatureData{Address: w.Vals[0].Stake.Addr, Amount: *balance.NewAmount(1000), Height: 6},
+						&delegation.MatureData{Address: w.Vals[1].Stake.Addr, Amount: *balance.NewAmount(2000), Height: 7})
+				}
+				return w
+			},
+			Prefix: func(w *harness.World) []harness.BlockSpec {
+				return []harness.BlockSpec{{}, {}, {},
+					{Txs: []*harness.TxSpec{stk.Unstake(w.Vals[1].Val, w.Vals[1].Stake, stk.WholeOLT(30), "mq-u2")}}, // block 4 -> matures at 6
+					{Txs: []*harness.TxSpec{stk.Unstake(w.Vals[0].Val, w.Vals[0].Stake, stk.WholeOLT(40), "mq-u1")}}, // block 5 -> matures at 7
+				}
+			},
+			Target: send("mq-send"),
+			After:  4,
+		},
+		{
 			// non-initial state: a chain restarted from an exported state with undelegations in flight
 			Kind: action.SEND.String(), Note: "multi-genesis-with-pending-undelegations-at-3-and-30",
 			World: func() *harness.World {
